@@ -8,7 +8,9 @@ ID = 'C13'
 LEVEL = 'exploration'
 RULE = ('(a) relations u(state, out\') from a formula menu over inputs of all '
         'three sign classes and Booleans, outputs integer / Boolean / both / '
-        'ignored, plus relations given as explicit tables: '
+        'ignored, plus relations given as explicit tables, plus ALL 255 relations '
+        'between x:(-1,1) and a Boolean output and (quick: 2048 spread; '
+        'thorough: all 65535) between x:(-1,1) and y\':(-1,1): '
         'dumps_bdds_as_code, exec in a fresh namespace, step() called on '
         'EVERY state of the full bit ranges that has an admissible output: '
         'exactly the requested keys, and (state, result) in the relation\'s '
@@ -78,10 +80,31 @@ def shards(tier, seed):
     for lo in range(0, 256, 16):
         for be in ('cudd', 'autoref'):
             out.append(dict(kind='roots', lo=lo, hi=lo + 16, backend=be))
+    # ALL relations between x:(-1,1) (4 values) and a Boolean / a 4-valued
+    # output, as explicit tables
+    for lo in range(1, 256, 32):
+        out.append(dict(kind='alltab', out='bool', lo=lo, hi=lo + 32))
+    if tier == 'thorough':
+        for lo in range(1, 65536, 512):
+            out.append(dict(kind='alltab', out='int', lo=lo, hi=lo + 512))
+    else:
+        off = (seed * 13) % 32
+        out.append(dict(kind='alltab', out='int', spread=[off, 0, 2048]))
     return out
 
 
 def cases(shard):
+    if shard['kind'] == 'alltab':
+        if 'spread' in shard:
+            off, lo, hi = shard['spread']
+            ms = [1 + (off + 32 * i) % 65535 for i in range(lo, hi)]
+        else:
+            ms = range(shard['lo'], min(shard['hi'],
+                                        256 if shard['out'] == 'bool'
+                                        else 65536))
+        for m in ms:
+            yield dict(kind='alltab', out=shard['out'], mask=m)
+        return
     if shard['kind'] == 'rel':
         yield dict(kind='rel', i=shard['i'], backend=shard['backend'])
     else:
@@ -90,6 +113,8 @@ def cases(shard):
 
 
 def run_case(case, acc):
+    if case['kind'] == 'alltab':
+        return run_alltab(case, acc)
     if case['kind'] == 'rel':
         run_rel(case, acc)
     else:
@@ -164,6 +189,54 @@ def run_rel(case, acc):
                 negative_input=neg_in)
             return
     acc.ev(dict(c=case['i'], b=case['backend']), nontrivial=nonfun, n=max(n, 1))
+    acc.count('programs')
+
+
+def run_alltab(case, acc):
+    import omega.symbolic.temporal as trl
+    import omega.symbolic.codegen as cg
+    aut = trl.Automaton()
+    if case['out'] == 'bool':
+        aut.declare_variables(x=(-1, 1), p='bool')
+        out = "p'"
+        ovals = [False, True]
+    else:
+        aut.declare_variables(x=(-1, 1), y=(-1, 1))
+        out = "y'"
+        ovals = ro.rep_range((-1, 1))
+    xs = ro.rep_range((-1, 1))
+    pairs = list(itertools.product(xs, ovals))
+    rows = [pr for i, pr in enumerate(pairs) if case['mask'] >> i & 1]
+    u = ro.Reader(aut, ['x', out]).from_rows(rows)
+    code = cg.dumps_bdds_as_code(u, [out], aut)
+    ns = {'__name__': 'generated_by_omega'}
+    exec(compile(code, '<generated>', 'exec'), ns)
+    step = ns['step']
+    adm = {}
+    for x, o in rows:
+        adm.setdefault(x, set()).add(o)
+    n = 0
+    other = 'p' if case['out'] == 'bool' else 'y'
+    for x in xs:
+        if x not in adm:
+            continue
+        n += 1
+        st = {'x': x, other: ovals[0]}
+        try:
+            res = step(dict(st))
+        except Exception as exc:  # noqa
+            acc.ev(n=n)
+            acc.violation('generated_step_raises', case, detail=dict(
+                state=st, error=repr(exc)[:200]), exc=type(exc).__name__)
+            return
+        if set(res) != {out} or res[out] not in adm[x] or \
+                isinstance(res[out], bool) != (case['out'] == 'bool'):
+            acc.ev(n=n)
+            acc.violation('output_not_in_relation', case, detail=dict(
+                state=st, result=res, admissible=sorted(adm[x])))
+            return
+    acc.ev(dict(c=case), nontrivial=any(len(v) > 1 for v in adm.values()),
+           n=max(n, 1))
     acc.count('programs')
 
 
